@@ -349,7 +349,7 @@ func main() {
 
 	breaks := []string{"wrong-previous", "previous-of-grandparent", "height-minus-1", "height-plus-1", "height-only",
 		"swapped", "missing", "foreign", "foreign-tail", "callback", "wrong-prev-map"}
-	n := o.Pick(800, 40000)
+	n := o.Pick(800, 16000)
 	for k := 0; k < n; k++ {
 		var size int
 		switch r.Intn(4) {
